@@ -1,21 +1,26 @@
 chk("C04", "proof",
-    "Unbounded theorems in coq/Properties/C04.v about a Gallina transcription of the IMSC reader's time-expression parser "
-    "(imsc/utils.py parse_time_expression, the ttp:frameRate/frameRateMultiplier/tickRate extractors) and of its temporal "
-    "resolution (imsc/elements.py ContentElement.ParsingContext.process) on ElementTree structures: every member of the TTML2 "
-    "<time-expression> grammar, in each of the 8 syntaxes, is parsed to its value (C04_time_syntax); for every XML tree and "
-    "parsing context the desired begin/end the reader computes equal the TTML2 par/seq/begin/end/dur interval semantics written "
-    "independently in Spec/TtmlTimingSpec.v (C04_interval, induction on the tree); with non-zero rates a tree without seq "
-    "containers is always read (C04_read_total_partial); effective frame rate and tick rate on well-formed parameters. "
-    "The model is compared with ttconv.imsc.reader.to_model on grammar-generated documents (element kinds, relative begin/end, "
-    "xml:space, xml:lang, region, set steps, anonymous spans, pruning) and the specification judges the code through the text "
-    "presented by ISD.from_model at every interval boundary; single-attribute corruptions check 'ignored and logged'.",
+    "Unbounded theorems in coq/Properties/C04.v about a Gallina transcription of the IMSC reader (imsc/utils.py parse_time_expression, "
+    "the ttp:frameRate/frameRateMultiplier/tickRate extractors, imsc/elements.py ContentElement.ParsingContext.process with its "
+    "styling steps) on ElementTree structures: every member of the TTML2 <time-expression> grammar, in each of the 8 syntaxes, is "
+    "parsed to its value (C04_time_syntax) and a string outside the grammar is rejected unless the trigger of finding "
+    "lax-value-syntax fires (C04_time_reject_partial); for every XML tree and parsing context the desired begin/end the reader "
+    "computes equal the TTML2 par/seq/begin/end/dur interval semantics written independently in Spec/TtmlTimingSpec.v "
+    "(C04_interval, induction on the tree); a tree without seq containers is always read (C04_read_total_partial); a malformed "
+    "begin/dur/end, xml:space, timeContainer or style attribute leaves exactly the result of the element without it "
+    "(C04_bad_attr_ignored_*); look-up equations for inline > nested > referential precedence with later references first "
+    "(C04_styles_*); effective frame rate and tick rate on well-formed parameters. The model is compared with "
+    "ttconv.imsc.reader.to_model on grammar-generated timing documents and style graphs (kinds, relative begin/end, xml:space, "
+    "xml:lang, region, specified styles, set steps, anonymous spans, pruning, initial values), and the specifications judge the "
+    "code through the text presented by ISD.from_model at every interval boundary and through the specified style sets; "
+    "single-attribute corruptions check 'ignored and logged'.",
     "Trusted: Coq kernel/vm_compute; expat/ElementTree parsing (the model starts from the element tree); harness/imsc_common.py "
-    "(literal printer, generator, dump of the ContentDocument), gen_c04.py; my reading of TTML2 section 12 / 7.2 in "
-    "Spec/TtmlTimingSpec.v; S values attribute strings through the table of abstract expressions they were printed from. "
-    "Not proved: rejection of every string outside the grammar (refuted for '10fx' and a trailing line feed, finding "
-    "lax-value-syntax), totality for seq containers (refuted, finding seq-indefinite-sibling), style precedence and the "
-    "bad-attribute clause (compared on generated documents only); non-ASCII digits are outside the model. Recorded findings: "
+    "(literal printer, generators, dump of the ContentDocument), gen_c04.py; my reading of TTML2 sections 12, 7.2, 10.4.2 in "
+    "Spec/TtmlTimingSpec.v and Spec/TtmlStyleSpec.v; S values attribute strings through tables made by the generator (time "
+    "expressions: the abstract syntax they were printed from; style values: well-formedness) and compares style values through "
+    "the code's own extract in isolation; tts:fontFamily/opacity/luminanceGain values are opaque to the model. Not proved: "
+    "totality for seq containers (refuted: finding seq-indefinite-sibling), the flattening of chained style references "
+    "(compared on generated graphs), log records (not modelled), non-ASCII digits (outside the model). Recorded findings: "
     "seq-indefinite-sibling, tickrate-default, lax-value-syntax, zero-rate-division, tt-parameter-abort, bad-ruby-drops-span, "
-    "unknown-attribute-not-logged, lax-style-syntax.",
-    "Coq theorems (structural induction over rose trees, Q arithmetic by lra/ring) + in-Coq differential run of model and spec on generated cases",
+    "unknown-attribute-not-logged, lax-style-syntax, style-invalid-value-abort, textshadow-comma-space.",
+    "Coq theorems (structural induction over rose trees, inversion of the recognisers, Q arithmetic by lra/ring) + in-Coq differential run of model and specs on generated cases",
     "DESIGN.md section 5 C04")
